@@ -3,9 +3,17 @@ import sys, json, importlib, traceback
 
 
 def main():
+    import os
     p = sys.argv[1]
     d = json.load(open(p))
     pid = d['property']
+    repo = os.environ.get('VERIF_REPO', '/repo')
+    if repo not in sys.path:
+        sys.path.insert(0, repo)          # the tree under replay, not whatever copy is installed
+    import geodepy
+    if not os.path.realpath(geodepy.__file__).startswith(os.path.realpath(repo) + os.sep):
+        print('ENGINE-ERROR: geodepy imported from %s, not from %s' % (geodepy.__file__, repo))
+        sys.exit(3)
     try:
         mod = importlib.import_module('props.' + pid)
         if not hasattr(mod, 'replay'):
@@ -22,6 +30,10 @@ def main():
             except Exception:
                 pass
         r = mod.replay(d)
+        if d.get('layer') == 'B' and isinstance(r, dict) and 'note' in r and 'observed' not in r and 'what' not in r:
+            # the property has no per-case replay for this bounded check: re-run the recorded work item
+            from . import bounded
+            r = bounded.replay_chunk('bounded.' + pid, d.get('check'), fi.get('input', fi) if isinstance(fi, dict) else {})
     except SystemExit:
         raise
     except BaseException:
